@@ -186,6 +186,83 @@ async def real_store(world, user):
     return dict(fs._filters), fs._active
 
 
+def parse_list(r):
+    listed = {}
+    for ln in r[:-1]:
+        m = re.match(rb'^(?:"((?:[^"\\]|\\.)*)"|\{(\d+)\}\r\n(.*?))( ACTIVE)?\r\n$', ln, re.S)
+        if m:
+            nm = re.sub(rb'\\(.)', rb'\1', m.group(1)) if m.group(1) is not None else m.group(3)
+            listed[nm.decode('utf-8')] = bool(m.group(4))
+    return listed
+
+
+async def sessions_scenario(prog, user, pw):
+    """several sessions of ONE user (two open at once from the start, a third opened at the end): there is one script store per
+    user, so what one session puts, activates or deletes is what every other session of that user lists, whatever the store
+    held (nothing, for a fresh user) when each of them logged in"""
+    errors = []
+    w = await World().start(extra_users=[('other', 'otherpass')])
+    clients = []
+    for n in ('c1', 'c2'):
+        c = SieveClient(w, n)
+        await c.response()
+        r = await c.auth(user, pw)
+        if cond(r) != b'OK':
+            errors.append(f'{n}: authentication answered {r}')
+        clients.append(c)
+    c1, c2 = clients
+    r = await c1.cmd(b'LISTSCRIPTS')
+    first = parse_list(r)
+    model = StoreModel({k: None for k in first}, next((k for k, v in first.items() if v), None))
+    sig = []
+
+    def compare(who, listed, where):
+        if set(listed) != set(model.scripts) or {k for k, v in listed.items() if v} != (
+                {model.active} if model.active is not None else set()):
+            errors.append(f'{where}: session {who} of {user.decode()} lists {listed}; through the other session the store was '
+                          f'made to hold {sorted(model.scripts)} (active: {model.active})')
+
+    for step, cmd in enumerate(prog):
+        r = await c1.cmd(wire(cmd))
+        want = model.apply(cmd)
+        got = cond(r)
+        sig.append((cmd[0], got))
+        where = f'step {step} {wire(cmd)[:40]!r}'
+        if got != want:
+            errors.append(f'{where}: answered {got}, the model says {want}')
+            break
+        compare('c2 (logged in at the same time)', parse_list(await c2.cmd(b'LISTSCRIPTS')), where)
+        if cmd[0] == 'put' and got == b'OK':
+            r = await c2.cmd(wire(('get', cmd[1])))
+            body = b''.join(r[:-1])
+            m = re.match(rb'\{(\d+)\}\r\n', body)
+            data = body[m.end():m.end() + int(m.group(1))] if m else body
+            if cond(r) != b'OK' or data != cmd[2]:
+                errors.append(f'{where}: the other session reads {cond(r)} {data!r} for the script just stored')
+        if errors:
+            break
+    if not errors:
+        c3 = SieveClient(w, 'c3')
+        await c3.response()
+        await c3.auth(user, pw)
+        compare('c3 (logged in afterwards)', parse_list(await c3.cmd(b'LISTSCRIPTS')), 'at the end')
+        clients.append(c3)
+        await c1.cmd(b'UNAUTHENTICATE')
+        await c1.auth(user, pw)
+        compare('c1 (authenticated again on the same connection)', parse_list(await c1.cmd(b'LISTSCRIPTS')), 'at the end')
+    await w.close()
+    for c in clients:
+        c.reader.feed_eof()
+    for _ in range(50):
+        if all(c.task.done() for c in clients):
+            break
+        await asyncio.sleep(0)
+    for c in clients:
+        if not c.task.done():
+            c.task.cancel()
+    return errors, tuple(sig)
+
+
 async def scenario(prog, mode):
     """mode: 'auth' (testuser authenticated), 'preauth' (not authenticated), 'two-users', 'relogin'"""
     errors = []
@@ -269,7 +346,11 @@ async def scenario(prog, mode):
 def _worker(args):
     prog, mode = args
     try:
-        errs, sig = run(scenario(prog, mode))
+        if mode.startswith('sessions-'):
+            errs, sig = run(sessions_scenario(prog, *{'sessions-fresh-user': (b'other', b'otherpass'),
+                                                      'sessions-demo-user': (b'testuser', b'testpass')}[mode]))
+        else:
+            errs, sig = run(scenario(prog, mode))
     except Exception as exc:    # noqa
         import traceback
         return args, [f'harness exception {exc!r} {traceback.format_exc()[-400:]}'], ()
@@ -285,6 +366,14 @@ def bounded_sieve(label):
         items += [((c,), 'auth') for c in SCRIPT_CMDS]
         items += [(p, 'auth') for p in itertools.product(SCRIPT_CMDS, repeat=2)]
         items += [((c,), 'relogin') for c in SCRIPT_CMDS]
+        # one store per user, whatever it held when each session logged in (a fresh user's is empty; the demo user's is emptied)
+        EMPTY = (('setactive', ''), ('delete', 'demo'))
+        for c in SCRIPT_CMDS:
+            items.append(((c,), 'sessions-fresh-user'))
+            items.append((EMPTY + (c,), 'sessions-demo-user'))
+        items.append((EMPTY, 'sessions-demo-user'))
+        for p in itertools.product(SCRIPT_CMDS[:6], repeat=2):
+            items.append((p, 'sessions-fresh-user'))
         if tier != 'quick':
             import random
             rnd = random.Random(seed)
